@@ -25,3 +25,4 @@ CFG['level_text'] += ' Each batch ends with 40 (thorough 400) rounds of honest r
 CFG['level_text'] += ' Honest reads through tiles are also made on virtual logs of 2^31 … 2^61 records at heights 1, 3 and 8, including stored hashes of level 33 and above.'
 CFG['level_text'] += ' Every other concurrent round shares one reader among the eight goroutines; the empty request is part of every (n, h) case.'
 CFG['level_text'] += ' Tile height 30, the largest accepted, is part of both tiers.'
+CFG['level_text'] += ' Heights 9 and 10 and trees of 600 and 1030 records are part of the quick tier (spans of more than 2^9 hashes inside one tile).'
